@@ -8,6 +8,24 @@
 pub assume_specification<T, A: std::alloc::Allocator>[VecDeque::<T, A>::is_empty](q: &VecDeque<T, A>) -> (r: bool)
     ensures r == (q@.len() == 0);
 
+// `VecDeque::front`: "Provides a reference to the front element, or `None` if the deque is empty."
+// (same transcription as prelude/net.rs, which the LIN / SC units do not include)
+pub assume_specification<T, A: std::alloc::Allocator>[VecDeque::<T, A>::front](q: &VecDeque<T, A>) -> (r: Option<&T>)
+    ensures
+        r == (if q@.len() > 0 { Some(&q@[0]) } else { None::<&T> });
+
+// `VecDeque::back`: "Provides a reference to the back element, or `None` if the deque is empty."
+pub assume_specification<T, A: std::alloc::Allocator>[VecDeque::<T, A>::back](q: &VecDeque<T, A>) -> (r: Option<&T>)
+    ensures
+        r == (if q@.len() > 0 { Some(&q@[q@.len() - 1]) } else { None::<&T> });
+
+// `impl IntoIterator for &BTreeMap<K, V, A>` (what `for (k, v) in &map` calls). std::iter module documentation:
+// "If a collection type `C` provides `iter()`, it usually also implements `IntoIterator` for `&C`, with an
+// implementation that just calls `iter()`"; for `&BTreeMap` the implementation is `fn into_iter(self) { self.iter() }`
+// and the impl's Item / IntoIter types are those of `iter()`. Specified as: whatever vstd says about `BTreeMap::iter`.
+pub assume_specification<'a, K, V, A: std::alloc::Allocator + Clone>[<&'a BTreeMap<K, V, A> as IntoIterator>::into_iter](m: &'a BTreeMap<K, V, A>) -> (r: btree_map::Iter<'a, K, V>)
+    ensures call_ensures(BTreeMap::<K, V, A>::iter, (m,), r);
+
 // `BTreeMap::iter`: "Gets an iterator over the entries of the map, sorted by key." / `BTreeMap::keys`:
 // "Gets an iterator over the keys of the map, in sorted order." Every key exactly once; the order itself
 // (ascending) is not exposed because no contract depends on it.
